@@ -112,8 +112,8 @@ def check_block_nest(ctx: Ctx, rid: str, rel: str, qual: str, start: str, reduce
         if not (isinstance(sy.lower, ast.Name) and isinstance(sx.lower, ast.Name)):
             raise AnalysisError(f"{rel}::{qual}: store slice lower bounds are not cursor names")
         ycur, xcur = sy.lower.id, sx.lower.id
-        uy = canon(defs.expand(sy.upper, st, depth=2, stop=(ycur, xcur))) if sy.upper is not None else ""
-        ux = canon(defs.expand(sx.upper, st, depth=2, stop=(ycur, xcur))) if sx.upper is not None else ""
+        uy = canon(defs.expand(sy.upper, st, depth=2, stop=(ycur, xcur, ochunks, ichunks))) if sy.upper is not None else ""
+        ux = canon(defs.expand(sx.upper, st, depth=2, stop=(ycur, xcur, ochunks, ichunks))) if sx.upper is not None else ""
         wy = canon(ast.parse(f"{ycur} + {e0}.shape[0]", mode="eval").body)
         wx = canon(ast.parse(f"{xcur} + {e1}.shape[1]", mode="eval").body)
         ctx.ob(rid, rel, st, f"{qual}: store rows [{ycur} : {uy}]", uy == wy, expected=f"{ycur} : {wy}", detail="the row extent of the written block must be the outer chunk's own extent on axis 0")
